@@ -36,6 +36,9 @@ type Call struct {
 	DescSize     int64  `json:"desc_size,omitempty"`
 	DescMedia    string `json:"desc_media,omitempty"`
 	Data         []byte `json:"-"`
+	// Have is, for PushBlobChunkedResume on a canned backend, the number of bytes the
+	// session held when the call arrived (-1 if unknown).
+	Have int64 `json:"have,omitempty"`
 
 	Ctx context.Context `json:"-"`
 }
@@ -437,7 +440,15 @@ func (r *Recorder) build() *ociregistry.Funcs {
 			return r.trackW("PushBlobChunked")(r.cannedWriter(repo, ""), nil)
 		},
 		PushBlobChunkedResume_: func(ctx context.Context, repo, id string, offset int64, chunkSize int) (ociregistry.BlobWriter, error) {
-			r.log(Call{Method: "PushBlobChunkedResume", Repo: repo, ID: id, Offset0: offset, ChunkSize: chunkSize, Ctx: ctx})
+			have := int64(-1)
+			if r.Inner == nil {
+				r.mu.Lock()
+				if up := r.uploads[id]; up != nil {
+					have = int64(up.buf.Len())
+				}
+				r.mu.Unlock()
+			}
+			r.log(Call{Method: "PushBlobChunkedResume", Repo: repo, ID: id, Offset0: offset, ChunkSize: chunkSize, Have: have, Ctx: ctx})
 			if r.Inner != nil {
 				return r.trackW("PushBlobChunkedResume")(r.Inner.PushBlobChunkedResume(ctx, repo, id, offset, chunkSize))
 			}
